@@ -522,6 +522,20 @@ def check(ctx):
         if len(dv_store) != 1 or ast.unparse(dv_store[0].value) not in ('devices.copy()', 'list(devices)', 'devices[:]'):
             o.fail(P, 'Group.__init__', 'self._devices = devices.copy()', 'the device list of the group is not a copy of the given list in order', file=c.mod.path, line=init.lineno)
         # the comparison of set(all_devices) is only used for membership: iteration order cannot matter (C14.2)
+        # the group's own list stays what was copied: it is only read afterwards (its first / last element are the default input / output);
+        # another name for it that is then extended changes those defaults
+        for s in inv.attr_uses(P, '_devices'):
+            if s.cls is not c:
+                continue
+            role = s.extra['role']
+            o.count()
+            if role[0] in ('store',) and s.func.name == '__init__':
+                continue
+            if role[0] in ('subscript-load', 'iter', 'test', 'return') or (role[0] == 'method' and role[1] in ('copy', 'index', 'count')) or \
+                    (role[0] == 'arg' and role[1] in ('len', 'list', 'tuple', 'set', 'sorted', 'enumerate')):
+                continue
+            o.fail(P, s.ctx, s.stmt, f'Group._devices is used as {role[0]}{" " + str(role[1]) if len(role) > 1 and isinstance(role[1], str) else ""}: the list must stay the copy of the given devices '
+                   '(its first and last elements are the default entry and exit of the group)', file=s.mod.path, line=s.line)
 
     # ---- C08.8 wiring ---------------------------------------------------------------------------------------------------------
     o = Ob('C08.8', 'K2', 'set_upstream detaches the old and attaches the new upstream devices; only _add_downstream/_remove_downstream write a downstream list')
